@@ -20,7 +20,7 @@ from engines import c05 as base
 
 RULE = ('recorder: the C05 scenarios ({gz, plain} x {single file, max_size rollover incl. 0}) x 1-3 lives on the same prefix, a later '
         'life appending or starting over (appending=False on a used prefix with an existing PREFIX.cdx: ~1/3 of the scenarios), with '
-        'cdx on in 85%; half of the lives are read from disk after every record-writing event while open, ~25% end abruptly '
+        'cdx on in 85%; in half of the lives the archive / index names are symbolic links (plain or a chain of two) to files on another volume;  half of the lives are read from disk after every record-writing event while open, ~25% end abruptly '
         '(forked child os._exit()s after k events, no close()) and are judged / continued from what is on disk; header blocks of 0-40 lines, CRLF/LF/mixed, folded, around and beyond the 4096-byte mark (Content-Type '
         'before and after it), Content-Type absent / garbage / with parameters / +,. subtypes / duplicated / odd case; '
         'hdr: generated header blocks + byte-level mutations incl. str.splitlines separators; mime/status: grammar + noise. '
@@ -142,8 +142,9 @@ def gen_move(rng):
     for li in range(rng.choice([1, 2, 2, 2])):
         c = dict(cfg, appending=(li > 0 and rng.random() < 0.5), log=rng.random() < 0.6)
         ops = [o for i in range(rng.choice([1, 2, 4])) for o in wc.gen_http_session(rng, 100 * li + i, c)]
-        lives.append({'cfg': c, 'ops': ops, 'logs': ['moved life %d' % li] if c['log'] else [], 'snap': False})
-    return {'lives': lives, 'seed': rng.getrandbits(32)}
+        lives.append({'cfg': c, 'ops': ops, 'logs': ['moved life %d' % li] if c['log'] else [], 'snap': False,
+                      'links': rng.choice([None, None, 'symlink', 'chain'])})
+    return {'lives': lives, 'seed': rng.getrandbits(32), 'move_dir_is_link': rng.random() < 0.3}
 
 
 def oracle_moved(tree):
@@ -227,7 +228,14 @@ def check_move(ctx, case):
     fails = []
     tags = []
     try:
+        if case.get('move_dir_is_link'):
+            # the --warc-move directory itself is a symbolic link to a directory on another volume
+            os.makedirs(os.path.join(directory, wc.VOLUME, 'moved-real'))
+            os.symlink(os.path.join(directory, wc.VOLUME, 'moved-real'), os.path.join(directory, wc.MOVED))
+            tags.append('move:dir-is-link')
         for li, run in enumerate(case['lives']):
+            if run.get('links'):
+                tags.append('move:names-are-%s' % run['links'])
             obs = wc.run_real_life(directory, run, 'move/%d/%d' % (case['seed'], li))
             r = obs['raised']
             if r:
